@@ -794,7 +794,7 @@ class Evaluator:
             return ("some", ("obj", "@" + args[0][1].replace("-", "_")))
         if name == "has_attr" and len(args) == 1 and args[0] is not None and not is_form(args[0]) and args[0][0] == "str" and "SvgElement" in rty:
             return ("bool", not (args[0][1] in self.absent or (self.present is not None and args[0][1] not in self.present)))
-        if name in TRANSPARENT:
+        if name in TRANSPARENT or name in self.transparent:
             return recv
         if name in ("to_string", "to_owned", "as_str") and recv is not None and not is_form(recv) and recv[0] == "str":
             return recv
@@ -840,8 +840,14 @@ class Evaluator:
                 if sub["self"] is not None and n["recv"].get("k") == "Path" and (n["recv"].get("res") or {}).get("local"):
                     env[n["recv"]["res"]["local"]] = sub["self"]
                 return r
-        # opaque local call: an atom over its operands
+        # opaque local call: an atom over its operands.  Successive calls of a stateful method on the same receiver
+        # (an iterator's next(), pop ...) are different values: they are numbered
         if all(a is not None for a in [recv] + args):
+            if name in ("next", "next_back", "pop", "pop_front", "pop_back", "recv", "read_line", "nth"):
+                seq = st.setdefault("seq", {})
+                k = (name, canon(recv))
+                seq[k] = seq.get(k, 0) + 1
+                return atom(f"{name}{seq[k]}", [recv] + args)
             return atom(name, [recv] + args)
         return None
 
